@@ -47,8 +47,12 @@ type Open struct {
 type Scenario struct {
 	Listeners []Listener `json:"listeners"`
 	Opens     []Open     `json:"opens"`
-	SwitchDen int        `json:"switch_den"`
-	FragDen   int        `json:"frag_den"`
+	// EndFirst: the connection goes away ("client-close": Client.Close,
+	// "server-close": the server disconnects) before the listeners that are
+	// still open are closed by the application
+	EndFirst  string `json:"end_first,omitempty"`
+	SwitchDen int    `json:"switch_den"`
+	FragDen   int    `json:"frag_den"`
 }
 
 func (l Listener) network() string {
@@ -67,6 +71,9 @@ func (l Listener) addr() string {
 
 func gen(r *rand.Rand, prop, tier string, index int) any {
 	s := &Scenario{SwitchDen: 2 + r.IntN(6), FragDen: []int{0, 2, 5}[r.IntN(3)]}
+	if r.IntN(6) == 0 {
+		s.EndFirst = []string{"client-close", "server-close"}[r.IntN(2)]
+	}
 	nl := 1 + r.IntN(3)
 	hosts := []string{"127.0.0.1", "10.0.0.5", "localhost", "::1", "0.0.0.0"}
 	used := map[string]bool{}
@@ -222,8 +229,11 @@ type run struct {
 	registered int
 	regKey     struct{ _ int }
 	client     *ssh.Client
+	sconn      *ssh.ServerConn
 	openRes    []string // per open: "", "accepted", "rejected: ..."
 	ctl        struct{ _ int }
+	endCmd     bool // the controller is asked to end the connection
+	ended      bool
 }
 
 func runHarness(c *core.Ctx, scnAny any) {
@@ -248,6 +258,7 @@ func runHarness(c *core.Ctx, scnAny any) {
 			c.Note("server handshake: %v", err)
 			return
 		}
+		r.sconn = sconn
 		go func() {
 			rt.SetName("server-chans")
 			rt.SetDaemon()
@@ -286,6 +297,15 @@ func runHarness(c *core.Ctx, scnAny any) {
 	rt.SetName("controller")
 	for r.phase < 2 {
 		rt.Park(&r.ctl, "controller")
+		if r.endCmd && !r.ended {
+			r.ended = true
+			rt.Fault("connection-ends-before-listener-close")
+			if scn.EndFirst == "server-close" && r.sconn != nil {
+				r.sconn.Close()
+			} else {
+				r.client.Close()
+			}
+		}
 	}
 	r.client.Close()
 }
@@ -381,7 +401,14 @@ func (r *run) listenerTask(i int) {
 	}
 	st.closeCalled = true
 	rt.Event("listener%d Close called (accepted %d)", i, st.accepted)
-	st.closeErr = ln.Close()
+	func() {
+		defer func() {
+			if p := recover(); p != nil {
+				r.c.Violate(Prop, "close-panic", "Close of listener %d (%s %s) panicked: %v", i, l.network(), l.addr(), p)
+			}
+		}()
+		st.closeErr = ln.Close()
+	}()
 	st.closeDone = true
 	rt.Event("listener%d Close returned", i)
 	// "later Accept calls return an error"
@@ -430,6 +457,13 @@ func (r *run) checkDelivered(i int, conn net.Conn) {
 func (r *run) onIdle() bool {
 	switch r.phase {
 	case 0:
+		if r.scn.EndFirst != "" && !r.endCmd && r.client != nil {
+			// first the connection goes away, then (next time the system is
+			// idle) the application closes its listeners
+			r.endCmd = true
+			rt.Wake(&r.ctl)
+			return true
+		}
 		r.phase = 1
 		for i, st := range r.ls {
 			if !st.wantClose && !r.scn.Listeners[i].NoClose {
